@@ -694,7 +694,27 @@ impl Worterbuch {
             WorterbuchError::SerDeError(e, "Error parsing JSON during import".to_owned())
         })?;
         debug!("Done. Merging nodes …");
+        // merging does not report newly created children, so the child lists of all parents with
+        // ls subscribers are compared before and after
+        let mut parents: Vec<Vec<RegularKeySegment>> =
+            self.ls_subscriptions.values().cloned().collect();
+        parents.sort();
+        parents.dedup();
+        let children_before: Vec<Vec<RegularKeySegment>> =
+            parents.iter().map(|p| self.sorted_children(p)).collect();
+
         let imported_values = self.store.merge(store.data);
+
+        let mut ls_subscribers = vec![];
+        for (parent, before) in parents.iter().zip(children_before) {
+            let after = self.sorted_children(parent);
+            if after != before {
+                ls_subscribers.push((self.store.ls_subscribers(parent), after));
+            }
+        }
+        if !ls_subscribers.is_empty() {
+            self.notify_ls_subscribers(ls_subscribers).await;
+        }
 
         for (key, (val, changed)) in &imported_values {
             if *changed {
@@ -715,6 +735,16 @@ impl Worterbuch {
         }
 
         Ok(imported_values)
+    }
+
+    fn sorted_children(&self, parent: &[RegularKeySegment]) -> Vec<RegularKeySegment> {
+        let mut children = if parent.is_empty() {
+            self.store.ls_root()
+        } else {
+            self.store.ls(parent).unwrap_or_default()
+        };
+        children.sort();
+        children
     }
 
     pub async fn unsubscribe(
